@@ -199,7 +199,7 @@ static int filter_assembly_str_fsa(const char unfiltered_str[],
       }
       break;
     case FIRST_CH:
-      if (unfiltered_str[i] > '!')
+      if (unfiltered_str[i] > ' ')
         filter_str[j++] = (char)tolower(unfiltered_str[i]);
       else if (unfiltered_str[i] == ' ' || unfiltered_str[i] == '\t') {
         // a tab separates the mnemonic from its operands like a space does
@@ -208,7 +208,7 @@ static int filter_assembly_str_fsa(const char unfiltered_str[],
       }
       break;
     case SPACE_FOUND:
-      if (unfiltered_str[i] > '!')
+      if (unfiltered_str[i] > ' ')
         filter_str[j++] = (char)tolower(unfiltered_str[i]);
       break;
     }
@@ -217,8 +217,9 @@ static int filter_assembly_str_fsa(const char unfiltered_str[],
       fprintf(stderr, "assembyline: line too long\n");
       return ASM_ERROR;
     }
-    // last printable ascii character
-    if ((unsigned char)unfiltered_str[i] > '~') {
+    // printable ascii characters and blanks only
+    if ((unsigned char)unfiltered_str[i] > '~' ||
+        ((unsigned char)unfiltered_str[i] < ' ' && unfiltered_str[i] != '\t')) {
       fprintf(stderr, "assembyline: Printable ascii characters only\n");
       return ASM_ERROR;
     }
